@@ -51,8 +51,8 @@ static const RegisterInitCode RULE_CODE[R_NRULES] = {
 
 struct expect {
     int n;
-    RegisterInitCode code[R_NRULES + 1];
-    long index[R_NRULES + 1]; /* -1: index not demanded */
+    RegisterInitCode code[R_NRULES + 3]; /* the two overlap rules admit two indices each */
+    long index[R_NRULES + 3]; /* -1: index not demanded */
 };
 
 static void
@@ -117,7 +117,9 @@ default_acceptable(const struct rspec *r)
  * statement, index), each with its own index: for every rule the lowest index
  * violating it, kept if no rule of lower rank is violated at the same or a
  * lower index.  (The rule-major answer, the index-major answer and the answer
- * of a single walk over the registers are three of them.) */
+ * of a single walk over the registers are three of them.)  The two overlap
+ * rules are reported with the index of either of the two overlapping
+ * neighbours. */
 static void
 reference_lists(const struct aspec *a, long na, const struct rspec *r, long nr, struct expect *e)
 {
@@ -153,10 +155,17 @@ reference_lists(const struct aspec *a, long na, const struct rspec *r, long nr, 
             if (!default_acceptable(&r[i]) && first[R_DEFAULT] < 0) first[R_DEFAULT] = i;
         }
     }
+    /* An overlap is a relation between two neighbours, element i-1 and element
+     * i: "the index of the offending area or register" does not say which of
+     * the two offends, so both indices are admissible reports of that
+     * violation.  The Pareto order keeps the later element i as the place where
+     * the violation is found (a walk has seen both elements only at i). */
     long best = -1; /* lowest index violated by a rule of lower rank */
     for (int k = 0; k < R_NRULES; ++k)
         if (first[k] >= 0 && (best < 0 || first[k] < best)) {
             expect_add(e, RULE_CODE[k], k == R_NO_AREAS ? -1 : first[k]);
+            if (k == R_AREA_OVERLAP || k == R_ENTRY_OVERLAP)
+                expect_add(e, RULE_CODE[k], first[k] - 1);
             best = first[k];
         }
     if (e->n == 0)
@@ -167,7 +176,7 @@ reference_lists(const struct aspec *a, long na, const struct rspec *r, long nr, 
 static const char *
 expect_str(const struct expect *e)
 {
-    static char buf[260];
+    static char buf[420];
     size_t l = 0;
     buf[0] = 0;
     for (int i = 0; i < e->n && l + 48 < sizeof buf; ++i)
